@@ -1,6 +1,6 @@
 (* Correspondence glue for C08: hashing / commitment functions and long-form DID resolution. *)
 From Coq Require Import List ZArith NArith Bool.
-From SV Require Import Base.Bytes Hash.B64 Hash.Varint Hash.Multihash Resolve.Op Jws.Compact Parser.Accept Parser.LongForm Corr.Resolve.
+From SV Require Import Base.Bytes Hash.B64 Hash.Varint Hash.Multihash Hash.ValueOnly Resolve.Op Jws.Compact Parser.Accept Parser.LongForm Corr.Resolve.
 Import ListNotations.
 
 Inductive hquery :=
@@ -12,6 +12,7 @@ Inductive hquery :=
   | HComputedUsing (mh : bytes) (codes : list N)
   | HCode (mh : bytes)
   | HSuffix (canonical : bytes) (algs : list N)
+  | HText (text : bytes) (code : N)        (* CalculateModelMultihash on raw JSON text: canonicalizer + hash *)
   | HB64Decode (s : bytes)
   | HB64Encode (b : bytes).
 
@@ -29,6 +30,7 @@ Definition hmodel (q : hquery) : hres :=
   | HComputedUsing mh codes => HBool (is_computed_using mh codes)
   | HCode mh => HNum (get_multihash_code mh)
   | HSuffix c algs => HStr (unique_suffix c algs)
+  | HText t code => HStr (text_multihash t code)
   | HB64Decode s => HStr (b64_decode s)
   | HB64Encode b => HStr (Some (b64_encode b))
   end.
